@@ -671,9 +671,6 @@ func replay(bi int, beh []mbt.Step, in *mbt.Input, res *mbt.Result) {
 					res.Count("layout_differs", 1)
 					if len(res.DriftNotes) < 5 {
 						res.DriftNotes = append(res.DriftNotes, fmt.Sprintf("behaviour %d step %d: tables per level %v, model %v", bi, si, got, want))
-						if os.Getenv("RESCALE_DEBUG") != "" {
-							fmt.Fprintln(os.Stderr, db.Diagnostics())
-						}
 					}
 				}
 			}
